@@ -1,17 +1,19 @@
 #!/bin/bash
 # Builds the harness binary from /repo's current working tree (module replace
-# => /repo), with the verif build tag (hooks on) and the virtual-clock overlay.
+# => /repo), with the verif build tag and the virtual-clock overlay.
 #   build.sh          -> /verif/bin/saomon
 #   build.sh race     -> /verif/bin/saomon.race (Go race detector)
 set -euo pipefail
 export GOFLAGS=-mod=mod GOPROXY=off GOSUMDB=off GOTOOLCHAIN=local
+mkdir -p /verif/bin /verif/build
+exec 9>/verif/build/.build.lock
+flock 9
 cd /verif/harness
 [ -f /verif/build/overlay/overlay.json ] || /verif/scripts/mkoverlay.sh >/dev/null
-mkdir -p /verif/bin
-# go.sum / go.mod track the repository's (module name and replace differ)
-if ! cmp -s /repo/go.sum go.sum.repo 2>/dev/null; then cp /repo/go.sum go.sum.repo; fi
+# keep go.sum in step with the repository's (the harness module mirrors its requirements)
+if ! cmp -s /repo/go.sum go.sum; then cp /repo/go.sum go.sum; fi
 if [ "${1:-}" = race ]; then
-  go build -race -tags verif -overlay /verif/build/overlay/overlay.json -o /verif/bin/saomon.race ./cmd/saomon
+  go build -race -tags verif -overlay /verif/build/overlay/overlay.json -o /verif/bin/saomon.race.tmp ./cmd/saomon && mv /verif/bin/saomon.race.tmp /verif/bin/saomon.race
 else
-  go build -tags verif -overlay /verif/build/overlay/overlay.json -o /verif/bin/saomon ./cmd/saomon
+  go build -tags verif -overlay /verif/build/overlay/overlay.json -o /verif/bin/saomon.tmp ./cmd/saomon && mv /verif/bin/saomon.tmp /verif/bin/saomon
 fi
